@@ -239,7 +239,8 @@ def r12_4(ctx):
         else:
             r.violate("transports::datachannel", "const:%s" % k.split("::")[-1], "%s:%d" % (c["sp"]["f"], c["sp"]["l"]), "%s = %s, RFC 8832 says %d" % (k, c.get("v"), v))
     # encoder: literals assigned to channel_type in send_dcep_open
-    enc = ctx.body("transports::sctp::SctpInner::send_dcep_open::{closure#0}")
+    helper = "transports::sctp::SctpInner::dcep_open_message"
+    enc = ctx.body(helper) if ctx.facts.has_body(helper) else ctx.body("transports::sctp::SctpInner::send_dcep_open::{closure#0}")
     r.scope.append(enc.name)
     lits = set()
     for x in ("channel_type",):
